@@ -38,7 +38,26 @@ SimpleStringBuffer::SimpleStringBuffer() :
     positions_filled_(0), write_limit_(SIMPLE_STRING_BUFFER_LEN-1)
 {
     buffer_[0] = '\0';
+#ifdef CPPUTEST_VERIF_HOOKS
+    verifInitCanary();
+#endif
 }
+
+#ifdef CPPUTEST_VERIF_HOOKS
+/* verification hook: canary bytes behind the fixed buffer (an overflow of buffer_ stays inside
+ * the object, where address sanitizers cannot see it) */
+void SimpleStringBuffer::verifInitCanary()
+{
+    for (size_t i = 0; i < sizeof(verif_canary_); i++) verif_canary_[i] = (char) 0xA5;
+}
+
+bool SimpleStringBuffer::verifCanaryIntact() const
+{
+    for (size_t i = 0; i < sizeof(verif_canary_); i++)
+        if (verif_canary_[i] != (char) 0xA5) return false;
+    return true;
+}
+#endif
 
 void SimpleStringBuffer::clear()
 {
